@@ -47,6 +47,11 @@ type caEcdhEvidence struct {
 }
 
 func selectChipAuthParams(doc *document.Document) (*ChipAuthParams, error) {
+	// NB also reached from VerifyEvidence, i.e. with a document from an untrusted bundle
+	if doc == nil || doc.Mf.Lds1.Dg14 == nil || doc.Mf.Lds1.Dg14.SecInfos == nil {
+		return nil, fmt.Errorf("[selectChipAuthParams] DG14 (security infos) is missing")
+	}
+
 	secInfos := doc.Mf.Lds1.Dg14.SecInfos
 
 	caInfo, caAlgInfo, algInferred, err := resolveCAInfo(secInfos)
